@@ -372,8 +372,35 @@ def run_lines(exe, args, lines, timeout=1800, env=None):
     return p.returncode, out, p.stderr
 
 
-def par_run_lines(exe, args, lines, shards=NPROC, timeout=1800, env=None):
-    """run_lines sharded over processes, results in input order; returns (ok, outs, errtext)"""
+def run_lines_robust(exe, args, lines, timeout=1800, env=None, max_crashes=25):
+    """run_lines, surviving crashes of the harness: when the process dies (signal, abort) or hangs, the line it
+    was working on gets the result "CRASH <status>" and the remaining lines are run in a fresh process."""
+    outs = []
+    pos = 0
+    crashes = 0
+    errtxt = ""
+    while pos < len(lines):
+        try:
+            rc, o, e = run_lines(exe, args, lines[pos:], timeout, env)
+        except subprocess.TimeoutExpired:
+            return False, outs, "timeout after %d lines" % len(outs)
+        if rc == 0 and len(o) == len(lines) - pos:
+            outs += o
+            return True, outs, errtxt
+        if len(o) >= len(lines) - pos or crashes >= max_crashes:
+            return False, outs + o, "rc=%s lines=%d/%d stderr=%s" % (rc, len(outs) + len(o), len(lines), e[-1500:])
+        # the line after the last complete answer killed the process
+        crashes += 1
+        outs += o
+        outs.append("CRASH rc=%s" % rc)
+        errtxt += "crash (rc=%s) on line: %s\n" % (rc, lines[pos + len(o)][:300])
+        pos += len(o) + 1
+    return True, outs, errtxt
+
+
+def par_run_lines(exe, args, lines, shards=NPROC, timeout=1800, env=None, robust=False):
+    """run_lines sharded over processes, results in input order; returns (ok, outs, errtext).
+    With robust=True a line that crashes the harness yields the result "CRASH rc=.." instead of failing the run."""
     import concurrent.futures as cf
     if not lines:
         return True, [], ""
@@ -382,8 +409,14 @@ def par_run_lines(exe, args, lines, shards=NPROC, timeout=1800, env=None):
     outs = [None] * len(lines)
     errs = []
     ok = True
+
+    def one(ch):
+        if robust:
+            good, o, e = run_lines_robust(exe, args, ch, timeout, env)
+            return (0 if good else 1), o, e
+        return run_lines(exe, args, ch, timeout, env)
     with cf.ThreadPoolExecutor(n) as ex:
-        futs = {ex.submit(run_lines, exe, args, ch, timeout, env): i for i, ch in enumerate(chunks)}
+        futs = {ex.submit(one, ch): i for i, ch in enumerate(chunks)}
         for f in cf.as_completed(futs):
             i = futs[f]
             rc, o, e = f.result()
